@@ -56,7 +56,7 @@ Scenarios ==
     {s \in [defect : Defects, validate : BOOLEAN, dryRun : BOOLEAN, rsDryRun : BOOLEAN,
             runSpace : {"none", "ok"}, planned : 1..MaxRuns, failAt : 0..MaxRuns, failKind : {"error", "interrupt"}, traced : BOOLEAN] :
         /\ (NeedsRunSpace(s.defect) => s.runSpace = "ok")
-        /\ (s.runSpace = "none" => s.planned = 1 /\ ~s.rsDryRun)
+        /\ (s.runSpace = "none" => s.planned = 1)       \* a run-space dry run without a run_space block plans the one default run
         /\ s.failAt <= s.planned
         /\ (s.defect # "none" => s.failAt = 0)
         /\ (s.failAt = 0 => s.failKind = "error")}
